@@ -256,6 +256,58 @@ pub fn c05_stack_lifo() {
     done(vm);
 }
 
+/// arbitrary interleaving of K pushes / pops of symbolically chosen registers against a reference
+/// stack (thorough tier): registers come back in LIFO order, SP ends at SP0 - 2*(pushes - pops)
+fn stack_history(k: usize) {
+    let mut vm = mk_vm();
+    let mut ctx = mk_ctx();
+    let pre = regs(&vm);
+    vsym!(w_kinds: u8);   // bit i: 1 = push, 0 = pop
+    vsym!(w_regs: u32);   // 4 bits per step: operand register
+    let mut model = pre;
+    let mut stack = [0u16; 6];
+    let mut depth = 0usize;
+    let mut i = 0;
+    while i < k {
+        let sel = ((w_regs >> (4 * i)) & 15) as u8 % NT_pop_reg_N;
+        let id = NT_pop_reg_ID[sel as usize];
+        // SP and SS as operands move the stack itself: outside this history check
+        vassume!(id != ID_sp && id != ID_ss);
+        let push = (w_kinds >> i) & 1 == 1;
+        let r = nt_pop_reg(sel, CUR, &mut vm, &mut ctx);
+        if push {
+            p_push__T_push__pop_reg(CUR, &mut vm, &mut ctx, "", (0, "push", 0), (0, r, 0));
+            stack[depth] = r16(&model, id);
+            depth += 1;
+            model.sp = model.sp.wrapping_sub(2);
+        } else {
+            vassume!(depth > 0);
+            p_pop__T_pop__pop_reg(CUR, &mut vm, &mut ctx, "", (0, "pop", 0), (0, r, 0));
+            depth -= 1;
+            set_r16(&mut model, id, stack[depth]);
+            model.sp = model.sp.wrapping_add(2);
+        }
+        i += 1;
+    }
+    vassert!("C05.history.registers_and_sp_match_reference_stack", regs(&vm) == model);
+    vcover!("C05.history.cover.push_push_pop_pop", k >= 4 && w_kinds & 15 == 0b0011);
+    vcover!("C05.history.cover.sp_crosses_zero", pre.sp == 2 && depth == 0 && k >= 4);
+    done_ctx(ctx);
+    done(vm);
+}
+
+#[cfg_attr(kani, kani::proof)]
+#[cfg_attr(kani, kani::unwind(8))]
+pub fn c05_stack_history4() {
+    stack_history(4);
+}
+
+#[cfg_attr(kani, kani::proof)]
+#[cfg_attr(kani, kani::unwind(8))]
+pub fn c05_stack_history6__t() {
+    stack_history(6);
+}
+
 /// PUSHF / POPF / LAHF / SAHF / XLAT
 #[cfg_attr(kani, kani::proof)]
 pub fn c05_singletons() {
@@ -357,6 +409,8 @@ pub const TABLE: &[(&str, fn())] = &[
     ("c05_pop", c05_pop),
     ("c05_push_pop_pair", c05_push_pop_pair),
     ("c05_stack_lifo", c05_stack_lifo),
+    ("c05_stack_history4", c05_stack_history4),
+    ("c05_stack_history6__t", c05_stack_history6__t),
     ("c05_singletons", c05_singletons),
     ("c05_twin_reach", c05_twin_reach),
 ];
